@@ -89,6 +89,12 @@ func genPDFContent(t *rapid.T) []byte {
 			out = append(out, drawFrom(t, pdfPOnly+pdfUpper, rapid.IntRange(5, 8).Draw(t, "n2"), "po2")...)
 		case 10: // UTF-8 multi-byte sequences
 			out = append(out, rapid.SampledFrom([]string{"é", "ü", "€", "日本", "😀", "ñ", "Ω"}).Draw(t, "utf")...)
+			if rapid.Bool().Draw(t, "nd") {
+				// digits of other scripts inside / next to long ASCII digit runs
+				digits(rapid.SampledFrom([]int{0, 5, 12, 13, 20}).Draw(t, "pre"))
+				out = append(out, string(rapid.SampledFrom(nonASCIIDigits).Draw(t, "ndr"))...)
+				digits(rapid.SampledFrom([]int{0, 5, 12, 13, 20}).Draw(t, "post"))
+			}
 		case 11: // short text (< 5) between bytes: swallowed by byte compaction
 			highBytes(rapid.IntRange(1, 4).Draw(t, "nb1"))
 			out = append(out, drawFrom(t, pdfLower+pdfMixedS, rapid.IntRange(1, 5).Draw(t, "n"), "st")...)
